@@ -171,6 +171,10 @@ pub fn run(report: &Report, thorough: bool) -> Evidence {
             befores.push(vec![a, b]);
         }
     }
+    // the third word slot (a ONE-key word: its list is the first thing the next word's first key asks for again) as the only
+    // word before the update
+    befores.push(vec![Before::TypeFinish(2)]);
+    befores.push(vec![Before::TypeCommit(2)]);
     // initial user files: (auto-correct document, learned-selection store present?)
     let initials: Vec<Option<usize>> = vec![None, Some(0), None];
     // a learned store with a non-first candidate for two of the words, probed from the real engine
